@@ -11,6 +11,9 @@ func specDir() string {
 	if d := os.Getenv("GOCV_SPEC"); d != "" {
 		return d
 	}
+	if d := os.Getenv("GOCV_VERIF"); d != "" {
+		return d + "/spec"
+	}
 	return "/verif/spec"
 }
 
